@@ -220,6 +220,28 @@ where
     | .scriptEnum _ | .scriptRecord _ => true
     | _ => false
 
+/-- The MIR type the script compiles a signature type to (`TypeInfo::convert`): a built-in enum with
+    the `default_types()` table, an enum the script declared with ITS table; `lay` = the layout a
+    `TypeId` was registered with. -/
+def scriptMTy (lay : Nat → Layout) : STy → MTy
+  | .unit => .unit
+  | .name0 _ _ (.prim p) => .prim p
+  | .name0 _ _ (.runtime id) => .runtime (lay id)
+  | .name1 _ _ (.builtin .list) _ => .list
+  | .name1 _ _ (.builtin .option) a => .enum (instVariants .never defaultOption [scriptMTy lay a])
+  | .name2 _ _ (.builtin .result) a b => .enum (instVariants .never defaultResult [scriptMTy lay a, scriptMTy lay b])
+  | .name2 _ _ (.builtin .verdict) a b => .enum (instVariants .never defaultVerdict [scriptMTy lay a, scriptMTy lay b])
+  | .name1 _ _ (.scriptEnum tbl) a => .enum (instVariants .never tbl [scriptMTy lay a])
+  | .name2 _ _ (.scriptEnum tbl) a b => .enum (instVariants .never tbl [scriptMTy lay a, scriptMTy lay b])
+  | _ => .never
+
+/-- a `TypeId` was registered with one layout: the one Rust's `Val<T>` has -/
+def RTy.LayOk (lay : Nat → Layout) : RTy → Prop
+  | .prim _ | .unit => True
+  | .val id l => lay id = l
+  | .option t | .list t => t.LayOk lay
+  | .result a b | .verdict a b => a.LayOk lay ∧ b.LayOk lay
+
 /-- the gate with every name test reduced to the identifier (the shape of seeded C05-9) -/
 def identOnlyArms : List GateArm := gateArms.map fun a => { a with scope := .anyScope }
 
